@@ -16,7 +16,7 @@ structure NthMArgs (a : Args) : Prop where
   valid : a.dtstart.Valid
   byweekno : a.byweekno = none
   byeaster : a.byeaster = none
-  bymonthday : a.bymonthday = none
+  monthday_nz : ∀ x ∈ a.bymonthday.getD [], x ≠ 0
   weekdays : ∃ l, a.byweekday = some l ∧ l ≠ [] ∧ ∀ w ∈ l, (0 ≤ w.1 ∧ w.1 ≤ 6) ∧ w.2 ≠ 0
 
 variable {a : Args} {r : Rule}
@@ -58,8 +58,8 @@ theorem nth_nwl (na : NthMArgs a) :
 abbrev nthRuleOf (a : Args) (bh bm bs : Option (List Int)) : Rule :=
   { freq := a.freq, interval := a.interval, wkst := a.wkst.getD 0,
     dtstart := { a.dtstart with us := 0 }, tz := a.tz, count := a.count, untilDT := a.untilDT,
-    bysetpos := a.bysetpos, bymonth := a.bymonth.map sortedSet, bymonthday := [],
-    bynmonthday := [], byyearday := a.byyearday.map sortedSet,
+    bysetpos := a.bysetpos, bymonth := a.bymonth.map sortedSet, bymonthday := bymonthdayOf a,
+    bynmonthday := bynmonthdayOf a, byyearday := a.byyearday.map sortedSet,
     byeaster := none, byweekno := none,
     byweekday := none, bynweekday := some (nwlOf a),
     byhour := bh, byminute := bm, bysecond := bs,
@@ -75,10 +75,7 @@ theorem nth_rule (na : NthMArgs a) (h : construct a = .ok r) : ∃ bh bm bs, r =
   obtain ⟨_, _, _, hwd, hnwd⟩ := nth_nwl na
   refine ⟨bh, bm, bs, ?_⟩
   have hbm : bymonthOf a = a.bymonth.map sortedSet := by unfold bymonthOf; simp [nth_noDay na]
-  have hmd : monthdayArg a = none := by unfold monthdayArg; simp [nth_noDay na, na.bymonthday]
-  have hbmd : bymonthdayOf a = [] := by unfold bymonthdayOf; rw [hmd]
-  have hbnd : bynmonthdayOf a = [] := by unfold bynmonthdayOf; rw [hmd]
-  simp [nthRuleOf, hbm, hbmd, hbnd, hwd, hnwd, na.byweekno, na.byeaster]
+  simp [nthRuleOf, hbm, hwd, hnwd, na.byweekno, na.byeaster]
 
 theorem nth_cuts (na : NthMArgs a) (h : construct a = .ok r) : CutsAgree a r := by
   obtain ⟨bh, bm, bs, hr⟩ := nth_rule na h
@@ -109,15 +106,19 @@ theorem nth_bridge (na : NthMArgs a) (h : construct a = .ok r) (info : Info) (y 
     unfold Spec.RRule.months
     have : Spec.RRule.noDayParts a = noDayParts a := rfl
     cases a.bymonth <;> simp [this, nth_noDay na]
-  have hmd : Spec.RRule.monthdays a = [] := by
+  have hmda : monthdayArg a = a.bymonthday := by unfold monthdayArg; simp [nth_noDay na]
+  have hmd : Spec.RRule.monthdays a = a.bymonthday.getD [] := by
     unfold Spec.RRule.monthdays
     have : Spec.RRule.noDayParts a = noDayParts a := rfl
-    simp [this, nth_noDay na, na.bymonthday]
+    simp [this, nth_noDay na]
+  have hmc := monthday_clause_core a (by rw [hmda]; exact na.monthday_nz) d (d - daysInMonth y m - 1)
+    (by omega) (by omega)
+  rw [hmda] at hmc
   have hwds : Spec.RRule.weekdays a = l := by
     unfold Spec.RRule.weekdays
     have : Spec.RRule.noDayParts a = noDayParts a := rfl
     simp [this, nth_noDay na, hl]
-  rw [hmonths, hmd, hwds, na.byweekno, na.byeaster, month_clause]
+  rw [hmonths, hmd, hwds, na.byweekno, na.byeaster, month_clause, hmc]
   have htn : truthy (none : Option (List Int)) = false := rfl
   have hmn : ∀ w, memO w (none : Option (List Int)) = false := fun _ => rfl
   simp only [htn, hmn, List.isEmpty_nil, Bool.not_true, Bool.or_false, Bool.not_false, Bool.true_or, Bool.and_true,
@@ -167,9 +168,10 @@ theorem nth_bridge (na : NthMArgs a) (h : construct a = .ok r) (info : Info) (y 
   rw [hwk]
   generalize ((a.bymonth.getD []).isEmpty || (a.bymonth.getD []).contains m) = b1
   generalize (l.isEmpty || _) = b2
+  generalize ((a.bymonthday.getD []).isEmpty || _ || _) = b4
   rcases a.byyearday with _ | (_ | ⟨x, xs⟩)
-  · cases b1 <;> cases b2 <;> rfl
-  · cases b1 <;> cases b2 <;> rfl
+  · cases b1 <;> cases b2 <;> cases b4 <;> rfl
+  · cases b1 <;> cases b2 <;> cases b4 <;> rfl
   · rw [yearday_clause (some (x :: xs))]
 
 end RRule
